@@ -56,6 +56,12 @@ pub fn comp_pair(comp: Comp) -> (u32, u32) {
 
 /// Encode `source` as a conforming archive with drawn layout choices.
 pub fn encode(source: &[u8], cfg: &Cfg, comp: Comp, hash_len: usize, metadata: &BTreeMap<String, Vec<u8>>) -> Encoded {
+    encode_with(source, cfg, comp, hash_len, metadata, false)
+}
+
+/// `permute_descriptors`: list the descriptors in a drawn order instead of the order of first
+/// occurrence (the .proto's comment documents the latter; readers do not depend on it)
+pub fn encode_with(source: &[u8], cfg: &Cfg, comp: Comp, hash_len: usize, metadata: &BTreeMap<String, Vec<u8>>, permute_descriptors: bool) -> Encoded {
     // chunk list: the declared chunker's, or (the format does not care) arbitrary cuts
     let arbitrary = gen::chance(1, 8);
     let chunks: Vec<(usize, usize)> = if arbitrary {
@@ -95,6 +101,24 @@ pub fn encode(source: &[u8], cfg: &Cfg, comp: Comp, hash_len: usize, metadata: &
         }
     }
     let n = uniq.len();
+    if permute_descriptors && n >= 2 {
+        let mut perm: Vec<usize> = (0..n).collect();
+        let mut rng = simkit::prng::Rng::new(gen::t(|t| t.seed64()));
+        for i in (1..n).rev() {
+            let j = rng.below(i as u64 + 1) as usize;
+            perm.swap(i, j);
+        }
+        // new position i holds old descriptor perm[i]
+        let mut inv = vec![0u32; n];
+        for (i, &o) in perm.iter().enumerate() {
+            inv[o] = i as u32;
+        }
+        uniq = perm.iter().map(|&o| uniq[o]).collect();
+        hashes = perm.iter().map(|&o| hashes[o].clone()).collect();
+        for r in order.iter_mut() {
+            *r = inv[*r as usize];
+        }
+    }
     // stored payloads
     let raw_bias = gen::draw(3);
     let mut payloads: Vec<Vec<u8>> = Vec::with_capacity(n);
@@ -193,7 +217,7 @@ pub fn encode(source: &[u8], cfg: &Cfg, comp: Comp, hash_len: usize, metadata: &
     archive.extend_from_slice(&data);
     let desc = json!({
         "encoder": "RefFormat", "legacy_magic": legacy, "slack": slack, "storage": (["ascending", "descending", "permuted"][storage_kind]), "gaps": (["none", "some", "all"][gap_kind]),
-        "chunks": chunks.len(), "unique": n, "raw_chunks": n_raw, "arbitrary_cuts": arbitrary, "style": format!("{:?}", style),
+        "descriptors_permuted": permute_descriptors, "chunks": chunks.len(), "unique": n, "raw_chunks": n_raw, "arbitrary_cuts": arbitrary, "style": format!("{:?}", style),
         "chunker": cfg.json(), "compression": comp.json(), "hash_length": hash_len, "source_len": source.len(),
     });
     Encoded { archive, dict, header_len, chunk_data_offset: cdo, desc }
